@@ -123,6 +123,7 @@ fn explore_splits(ctx: &Arc<Ctx>, kivs: Vec<(String, String)>, tmax: usize, zmax
     let kv2 = kv.clone();
     // history = [key index, request sizes...]
     let model = HistModel {
+        batch: 64,
         inits: (0..kv.len() as u16).map(|i| vec![i]).collect(),
         actions: Box::new(move |h: &[u16]| {
             let total: usize = h[1..].iter().map(|x| *x as usize).sum();
@@ -139,10 +140,12 @@ fn explore_splits(ctx: &Arc<Ctx>, kivs: Vec<(String, String)>, tmax: usize, zmax
             }
             a
         }),
-        visit: Box::new(move |h: &[u16]| {
+        visit: Arc::new(move |h: &[u16]| {
             let (k, v) = &kv2[h[0] as usize];
             let sizes: Vec<usize> = h[1..].iter().map(|x| *x as usize).collect();
-            eval(&c2, &Case::History { key: k.clone(), iv: v.clone(), sizes });
+            let c = Case::History { key: k.clone(), iv: v.clone(), sizes };
+            eval(&c2, &c);
+            prefix_push(serde_json::to_value(&c).unwrap());
         }),
     };
     let st = explore(model);
@@ -153,7 +156,7 @@ fn explore_splits(ctx: &Arc<Ctx>, kivs: Vec<(String, String)>, tmax: usize, zmax
 pub fn run(ctx: &Arc<Ctx>) {
     refmodels::selftest::run(&["zuc"]).unwrap_or_else(|e| ctx.machinery_error(format!("reference self-test failed: {}", e)));
     let zmax = ctx.tier.pick(1usize, 2);
-    ctx.set_rule("stateright BFS over request histories on the real generator: every composition of every total <= 12 words with every placement of up to Zmax empty requests, per key/IV in {0/0, FF/FF, official vector 3, 2 seeded}; thorough adds the 256 single-bit keys and IVs with total <= 4. Invariant in every state: concatenation of returned words = reference keystream prefix and each request returns exactly the number of words asked. Long streams: 2^16 words in one request and in 2^8 equal requests. Oracle: independent ZUC (u64 arithmetic mod 2^31-1, generated S-boxes) pinned by the three official vectors.");
+    ctx.set_rule("stateright BFS over request histories on the real generator: every composition of every total <= 12 words with every placement of up to Zmax empty requests, per key/IV in {0/0, FF/FF, official vector 3, 2 seeded}; thorough adds the 256 single-bit keys and IVs with total <= 4. Invariant in every state: concatenation of returned words = reference keystream prefix and each request returns exactly the number of words asked. Crafted key/IV pairs whose first initialisation round has LFSR feedback = 0 mod 2^31-1 (the s16=0 replacement). Long streams: 2^16 words in one request and in 2^8 equal requests. Oracle: independent ZUC (u64 arithmetic mod 2^31-1, generated S-boxes) pinned by the three official vectors.");
     ctx.note_bound(format!("T=12 Zmax={}", zmax));
     explore_splits(ctx, key_ivs(ctx), 12, zmax, 12, "split_model");
     ctx.sample(json!({"History": {"key": "00".repeat(16), "iv": "00".repeat(16), "sizes": [3, 0, 1, 8]}}));
@@ -168,6 +171,23 @@ pub fn run(ctx: &Arc<Ctx>) {
         }
         explore_splits(ctx, kivs, single_bit_t, 0, single_bit_t, "single_bit_key_iv_model");
     }
+    // crafted key/IV pairs that hit the s16 == 0 replacement in the first initialisation round
+    let mut crafted: Vec<(String, String)> = Vec::new();
+    for i in 0..4u64 {
+        let bk: [u8; 16] = seeded(ctx.seed ^ i, "c08craftk", 16).try_into().unwrap();
+        let bi: [u8; 16] = seeded(ctx.seed ^ i, "c08crafti", 16).try_into().unwrap();
+        for (k, v) in zuc::craft_s16_zero(&bk, &bi) {
+            crafted.push((hex::encode(k), hex::encode(v)));
+        }
+    }
+    ctx.cov("crafted_key_iv_pairs_hitting_s16_zero_in_init_round_1", json!(crafted.len()));
+    if crafted.is_empty() {
+        ctx.machinery_error("no crafted s16==0 key/IV pair found");
+    } else {
+        ctx.sample(json!({"History": {"key": crafted[0].0, "iv": crafted[0].1, "sizes": [2, 2]}}));
+        crafted.truncate(8);
+        explore_splits(ctx, crafted, 4, 1, 4, "crafted_s16_zero_model");
+    }
     let (k, v) = key_ivs(ctx)[3].clone();
     let long_total = 1usize << 16;
     for parts in [1usize, 1 << 8] {
@@ -177,5 +197,5 @@ pub fn run(ctx: &Arc<Ctx>) {
     }
     let (k, v) = key_ivs(ctx)[2].clone();
     eval(ctx, &Case::Long { key: k, iv: v, total: long_total, parts: 16 });
-    ctx.assume("the LFSR s16 == 0 replacement branch cannot be forced from outside; compared with the reference only if a stream hits it (count in structural.s16_zero_branch_hits)");
+    ctx.assume("the LFSR s16 == 0 replacement is forced only in the first initialisation round (crafted key/IV pairs, confirmed by the reference's branch counter); in later rounds and in work mode it cannot be forced from outside");
 }
